@@ -49,7 +49,8 @@ Inductive pcase :=
 | PDec (ty : int) (b : pbytes) (r : option pbytes)
 | PDecSame (ty : int) (b : pbytes)            (* accepted and re-encoded to the same bytes *)
 | PItem (b : pbytes) (r : option pbytes)
-| PItemSame (b : pbytes).
+| PItemSame (b : pbytes)
+| PStream (ty : int) (b : pbytes) (r : option (pbytes * int)).
 
 Definition unpack_case (c : pcase) : case :=
   match c with
@@ -58,6 +59,8 @@ Definition unpack_case (c : pcase) : case :=
   | PDecSame ty b => let x := unpack b in CDec (n_of_int ty) x (Some x)
   | PItem b r => CItem (unpack b) (option_map unpack r)
   | PItemSame b => let x := unpack b in CItem x (Some x)
+  | PStream ty b r =>
+    CStream (n_of_int ty) (unpack b) (option_map (fun p => (unpack (fst p), n_of_int (snd p))) r)
   end.
 
 Definition pmismatches (t : table) (l : list pcase) : list N :=
